@@ -821,7 +821,8 @@ impl Global {
             "wall_s": wall,
             "violations": self.violations.len(),
         });
-        let dir = format!("{}/evidence", self.verif_dir);
+        // tools that run the checks against a deliberately broken tree redirect the evidence
+        let dir = std::env::var("TACHECK_EVIDENCE_DIR").unwrap_or_else(|_| format!("{}/evidence", self.verif_dir));
         let _ = std::fs::create_dir_all(&dir);
         let path = format!("{}/{}.json", dir, self.id);
         if let Err(e) = std::fs::write(&path, serde_json::to_string_pretty(&ev).unwrap()) {
